@@ -59,7 +59,7 @@ FaultHttpTags(h) ==
 \* NUT-19: e.a.variant in identical / onebyte / otherpath / trailing / failed
 ReplayTags(e) ==
   IF e.a.skipped THEN {}
-  ELSE IF e.a.variant = "identical"
+  ELSE IF e.a.variant \in {"identical", "identical-old"}      \* identical-old: the oldest cached request, after later ones
   THEN (IF e.r.status = 200 /\ e.r.same /\ e.r.dbcalls = 0 THEN {} ELSE {<<"C20", "identical-replay-not-served-from-cache">>})
   ELSE (IF e.r.status = 200 /\ e.r.same THEN {<<"C20", "near-replay-served-from-cache:" \o e.a.variant>>} ELSE {})
 =============================================================================
